@@ -451,7 +451,7 @@ func SortedErrs(errs []Err) []string {
 // ClassOf maps a message from a real response to the class used by the model.
 func ClassOf(msg string) string {
 	switch {
-	case strings.HasPrefix(msg, "E:"), strings.HasPrefix(msg, "D:"), strings.HasPrefix(msg, "P:"), strings.HasPrefix(msg, "A:"), strings.HasPrefix(msg, "M:"):
+	case strings.HasPrefix(msg, "E:"), strings.HasPrefix(msg, "D:"), strings.HasPrefix(msg, "P:"), strings.HasPrefix(msg, "A:"), strings.HasPrefix(msg, "M:"), strings.HasPrefix(msg, "O:"):
 		return msg
 	case strings.HasPrefix(msg, "recovered:"):
 		return strings.TrimPrefix(msg, "recovered:")
